@@ -298,7 +298,7 @@ Fixpoint run_invocations (k : dkind) (st : vstate) (invs : list invocation) : bo
 Record call := mkCall {
   c_x : option input; c_yt : option input; c_yp : option input;
   c_invs : list invocation;
-  c_accepted : bool;                     (* observed: returned normally *)
+  c_accepted : bool;                     (* observed: got past validation (returned, or failed later in the body) *)
   c_cols : option (list name); c_dim : option Z;  (* observed attributes after the call ... *)
   c_attrs_known : bool                   (* ... when they could be read *)
 }.
